@@ -1664,10 +1664,13 @@ func vgGenOpts(g *vgRng, prev *vgOpts, nEP int) *vgOpts {
 	if g.pct(35) {
 		switch g.intn(5) {
 		case 0: // default without options
-			for {
+			for tries := 0; ; tries++ {
 				n := g.intn(6)
 				if n == 5 {
 					n = 9
+				}
+				if tries > 40 { // every small name is taken (large configurations): a name nobody uses
+					n = 99
 				}
 				if !used[n] {
 					o.def = n
